@@ -350,6 +350,19 @@ func (fr *frame) inline(instr *ssa.Call, callee *ssa.Function, args, bindings []
 	entry := st.clone()
 	entry.defers = nil
 	child.entry = entry
+	// hypotheses of an inlined function (assumptions about its inputs) hold
+	// wherever its body runs
+	if child.fc != nil {
+		for _, r := range child.fc.Requires {
+			if !r.Hypothesis || r.E == nil {
+				continue
+			}
+			if fact, err := child.evalBool(r.E, entry, entry, nil); err == nil {
+				ft.assume(reach, fact)
+				ft.assumed["HYPOTHESIS of "+child.fc.Name+" (property hypothesis, not checked at call sites): "+r.Text] = true
+			}
+		}
+	}
 	ft.inlineStack = append(ft.inlineStack, callee)
 	child.execBody(entry, reach)
 	ft.inlineStack = ft.inlineStack[:len(ft.inlineStack)-1]
@@ -581,6 +594,21 @@ func (fr *frame) externalCall(instr *ssa.Call, callee *ssa.Function, c *ssa.Call
 			fr.setResult(instr, vals[0])
 		} else {
 			fr.setResult(instr, Val{Tuple: vals})
+		}
+		// C17 taint discipline: a pure string function of secret free arguments
+		// yields secret free strings
+		if e.curProp == "C17" && fr.taintDecls() {
+			var pre []string
+			for i, a := range argTerms {
+				if argSorts[i] == string(SStr) {
+					pre = append(pre, sx("spec$secretFree", a))
+				}
+			}
+			for _, v := range vals {
+				if v.T.Sort == SStr {
+					ft.assume("true", implies(and(pre...), sx("spec$secretFree", v.T.S)))
+				}
+			}
 		}
 		e.usedExternals[name] = "pure-uf"
 		return reach
